@@ -29,6 +29,7 @@ type Script struct {
 	Fail       int  `json:"fail,omitempty"`       // the first Fail attempts fail (exit 1); -1 = always fail
 	Hang       bool `json:"hang,omitempty"`       // an attempt ends only when signalled (per Ignore*) or its context is cancelled
 	IgnoreTerm bool `json:"ignoreTerm,omitempty"` // only SIGKILL (or context cancel, which exec turns into SIGKILL) ends a hanging attempt
+	CreateFail int  `json:"createFail,omitempty"` // the first CreateFail attempts fail before a process exists (executor creation fails)
 	OutBytes   int  `json:"out,omitempty"`        // bytes written to stdout per attempt (pattern encodes step/attempt)
 	ErrBytes   int  `json:"err,omitempty"`
 }
@@ -60,6 +61,7 @@ type World struct {
 	Scripts  map[string]*Script
 	Events   []Event
 	attempts map[string]int
+	creates  map[string]int
 	open     map[string]*proc // running attempt per step
 	t0       time.Time
 	OnEvent  func(Event) // called with mu released
@@ -95,7 +97,7 @@ var (
 )
 
 func NewWorld(scripts map[string]*Script) *World {
-	w := &World{Scripts: scripts, attempts: map[string]int{}, open: map[string]*proc{}, t0: NowHook()}
+	w := &World{Scripts: scripts, attempts: map[string]int{}, creates: map[string]int{}, open: map[string]*proc{}, t0: NowHook()}
 	curMu.Lock()
 	cur = w
 	curMu.Unlock()
@@ -162,6 +164,17 @@ func create(ctx context.Context, step dag.Step) (executor.Executor, error) {
 	w := Current()
 	if w == nil {
 		return nil, fmt.Errorf("vexec: no world")
+	}
+	w.mu.Lock()
+	w.creates[step.Name]++
+	nth := w.creates[step.Name]
+	sc := w.Scripts[step.Name]
+	w.mu.Unlock()
+	if sc != nil && nth <= sc.CreateFail {
+		// the attempt fails before anything is started (like a missing working directory, or a
+		// docker / ssh / http executor that cannot be constructed)
+		w.emit(Event{Kind: "createfail", Step: step.Name, Attempt: nth})
+		return nil, fmt.Errorf("vexec: executor for %s cannot be created (attempt %d)", step.Name, nth)
 	}
 	w.emit(Event{Kind: "create", Step: step.Name})
 	return &execImpl{w: w, ctx: ctx, step: step}, nil
